@@ -1282,3 +1282,32 @@ theorem segFrameSegment_spec (a : LoopAcc) (seg : Option Int) (sn : Int) (h : se
   · cases h
 
 end HdVerif.SREvidenceLemmas
+
+namespace HdVerif.SREvidenceLemmas
+open HdVerif HdVerif.SREvidence
+
+theorem foldl_addTo_inv : ∀ (prev : List Evd) (g : KeyGroups),
+    (rowsK (prev.foldl (fun g p => addTo (p.study, p.series) ⟨p.cls, p.inst⟩ g) g)).Perm (rowsK g ++ prev.map Evd.row) ∧
+    ((g.map Prod.fst).Nodup → ((prev.foldl (fun g p => addTo (p.study, p.series) ⟨p.cls, p.inst⟩ g) g).map Prod.fst).Nodup) ∧
+    (NonEmptyK g → NonEmptyK (prev.foldl (fun g p => addTo (p.study, p.series) ⟨p.cls, p.inst⟩ g) g))
+  | [], g => by simp
+  | e :: es, g => by
+    obtain ⟨h1, h2, h3⟩ := foldl_addTo_inv es (addTo (e.study, e.series) ⟨e.cls, e.inst⟩ g)
+    simp only [List.foldl_cons, List.map_cons]
+    refine ⟨?_, fun h => h2 (nodup_keys_addTo _ _ _ h), fun h => h3 (nonEmptyK_addTo _ _ _ h)⟩
+    refine h1.trans ?_
+    refine (List.Perm.append_right _ (rowsK_addTo _ _ _)).trans ?_
+    rw [rowOf_evd]
+    simp
+
+/-- `_collect_predecessors`: every previous version listed (no deduplication), under its own study and series -/
+theorem predecessors_spec (prev : List Evd) :
+    (rows (predecessors prev)).Perm (prev.map Evd.row) ∧ WellGrouped (predecessors prev) := by
+  obtain ⟨h1, h2, h3⟩ := foldl_addTo_inv prev []
+  unfold predecessors
+  constructor
+  · refine (rows_createReferences _ []).trans ?_
+    simpa [rows, rowsK] using h1
+  · exact wellGrouped_createReferences _ (h2 (by simp)) (h3 (by intro x hx; simp at hx))
+
+end HdVerif.SREvidenceLemmas
